@@ -22,6 +22,7 @@ type rawEvent struct {
 	e       ecs.EntityEvent
 	locked  bool
 	aliveOK bool
+	to      int
 }
 
 type W struct {
@@ -177,10 +178,10 @@ func b01(b bool) int {
 
 func (x *W) strEvent(r rawEvent) string {
 	e := r.e
-	return fmt.Sprintf("e=%s add=%s rem=%s aids=%s rids=%s orel=%s nrel=%s otg=%s types=%d locked=%d",
+	return fmt.Sprintf("e=%s add=%s rem=%s aids=%s rids=%s orel=%s nrel=%s otg=%s types=%d locked=%d to=%d",
 		x.slotOf(e.Entity), x.strMask(&e.Added), x.strMask(&e.Removed),
 		sortedIDs(e.AddedIDs), sortedIDs(e.RemovedIDs), optID(e.OldRelation), optID(e.NewRelation),
-		x.slotOf(e.OldTarget), int(e.EventTypes), b01(r.locked))
+		x.slotOf(e.OldTarget), int(e.EventTypes), b01(r.locked), r.to)
 }
 
 // view of an alive entity through the World API.
@@ -373,8 +374,34 @@ func (x *W) allEntities() []ecs.Entity {
 }
 
 func (x *W) installListener(subs int, comps string) {
+	cb := x.callback(0, subs, comps)
+	x.cb = &cb
+	x.w.SetListener(x.cb)
+}
+
+// installDispatch: the first k sub-listeners go to NewDispatch, the rest are added later.
+func (x *W) installDispatch(k int, specs []string) {
+	var cbs []*listener.Callback
+	for i := 0; i+1 < len(specs); i += 2 {
+		s, _ := strconv.Atoi(specs[i])
+		cb := x.callback(i/2, s, specs[i+1])
+		cbs = append(cbs, &cb)
+	}
+	var first []ecs.Listener
+	for i := 0; i < k && i < len(cbs); i++ {
+		first = append(first, cbs[i])
+	}
+	d := listener.NewDispatch(first...)
+	for i := k; i < len(cbs); i++ {
+		d.AddListener(cbs[i])
+	}
+	x.cb = nil
+	x.w.SetListener(&d)
+}
+
+func (x *W) callback(to int, subs int, comps string) listener.Callback {
 	cb := listener.NewCallback(func(w *ecs.World, e ecs.EntityEvent) {
-		re := rawEvent{e: e, locked: w.IsLocked()}
+		re := rawEvent{e: e, locked: w.IsLocked(), to: to}
 		// copy the id slices: the documentation forbids keeping them
 		re.e.AddedIDs = append([]ecs.ID{}, e.AddedIDs...)
 		re.e.RemovedIDs = append([]ecs.ID{}, e.RemovedIDs...)
@@ -397,8 +424,7 @@ func (x *W) installListener(subs int, comps string) {
 		}
 		x.events = append(x.events, re)
 	}, event.Subscription(subs), x.ids(comps)...)
-	x.cb = &cb
-	x.w.SetListener(x.cb)
+	return cb
 }
 
 // exec runs one operation and returns the result text.  Panics of the library are
@@ -737,6 +763,9 @@ func (h *H) exec(wk int, cmd string, a []string, idxSeed int) (res string, msg s
 			return "ok", ""
 		}
 		x.installListener(atoi(a[0]), a[1])
+		return "ok", ""
+	case "LISTEND":
+		x.installDispatch(atoi(a[0]), a[1:])
 		return "ok", ""
 	case "LOCKED":
 		return fmt.Sprintf("b %d", b01(x.w.IsLocked())), ""
